@@ -208,7 +208,7 @@ func (x *c12exec) run(e common.Env, p *common.Part) *c12fail {
 	// the log sink is slow at the last message a key generation logs before it returns (a window in which the call has finished its
 	// work but still owns the session's state)
 	x.c = newRCluster(cluster.Config{Map: m, Silent: h.Mode == "silent", Barrier: h.Mode == "barrier", Threshold: thr, Script: c12script, Nodes: x.nodes,
-		Logger: common.SlowLog{Prefixes: []string{"DKG completed"}, Delay: 3 * time.Millisecond}}, rng, pol)
+		Logger: common.SlowLog{Prefixes: []string{"DKG completed", "Failed signing"}, Delay: 3 * time.Millisecond}}, rng, pol)
 	defer x.c.Stop()
 	threshold.SetVerifHook(x.hook)
 	defer threshold.SetVerifHook(func(string) {})
